@@ -177,6 +177,42 @@ def correspondence(ctx, corr):
     corr["samples"] = [{"line": lines[i][:200], "impl": expect[i], "model": model[i]} for i in range(0, len(lines), max(1, len(lines) // 4))][:4]
 
 
+def statement_sweep(ctx, orc):
+    """Seed-independent: every statement of the corpus and variants of its numeric literals (cpu_sweep.variants: the
+    literal +1, ^2, and in the thorough tier 0, 1, -1, x2, 0x7f, 0x80, 0xff, 0x100, 0x7fff, 0x8000, 0xffff), each as
+    a one-statement program through the real two passes in-process: an 'Error' line printed with status 0 means an
+    erroneous statement was assembled as if valid; a failing status without any diagnostic is a silent failure."""
+    import cpu_sweep
+    lines, meta = [], []
+    for cpu in S.cpus():
+        for st in S.statements(cpu):
+            for v in cpu_sweep.variants(st, not ctx.quick()):
+                lines.append(nvlib.prog_line(".%s\n.org 0x1000\n  %s\n" % (cpu, v)))
+                meta.append((cpu, st, v))
+    ans = ctx.impl(lines)
+    seen = set()
+    n_err = n_ok = 0
+    for (cpu, st, v), a in zip(meta, ans):
+        orc["cases"] += 1
+        d = nvlib.parse_prog(a)
+        if d["died"]:
+            continue        # crashes are C16's business
+        kind = None
+        if d["st"] == 0 and d["err"] > 0:
+            kind, exp, what = "error-printed-exit-0", "a failing status", "an Error diagnostic was printed but both passes reported success"
+        elif d["st"] != 0 and d["err"] == 0:
+            kind, exp, what = "silent-failure", "an Error diagnostic", "a pass failed without any Error diagnostic"
+        n_ok += d["st"] == 0
+        n_err += d["st"] != 0
+        if kind and (cpu, kind, st) not in seen:
+            seen.add((cpu, kind, st))
+            orc["failures"].append({"sig": "C12:%s:stmt:%s:%s" % (kind, cpu, st), "input": ".%s / %s" % (cpu, v), "label": "stmt",
+                                    "type": "-", "expected": exp, "observed": "status %d, %d Error lines" % (d["st"], d["err"]),
+                                    "what": what})
+    orc["stats"]["statement_sweep"] = {"one_statement_programs": len(lines), "accepted": n_ok, "rejected": n_err,
+                                       "inconsistent": len(seen)}
+
+
 def oracle(ctx, orc, focus=None):
     if "results" not in ctx.notes:
         exe = ctx.repo["naken_asm"]; tmp = ctx.tmpdir()
@@ -220,6 +256,7 @@ def oracle(ctx, orc, focus=None):
                 stats["bad_rejected"] += 1
                 stats["by_kind"][kind] = stats["by_kind"].get(kind, 0) + 1
     orc["stats"] = stats
+    statement_sweep(ctx, orc)
     orc["distinct_nontrivial"] = len(set(p[1] for p in progs))
     orc["samples"] = [{"label": progs[i][0], "type": progs[i][2], "exit": results[i]["rc"], "errors": results[i]["errors"]}
                       for i in range(0, len(progs), max(1, len(progs) // 5))][:5]
